@@ -116,6 +116,12 @@ def exprs(tier, rng):
     return d1, d2
 
 
+WRAPS = [(["DO"], ["LOOP UNTIL 1 = 1"]), (["FOR W9% = 1 TO 1"], ["NEXT"]), (["WHILE W9% = 0", "W9% = 1"], ["WEND"]),
+         (["IF 1 = 1 THEN"], ["END IF"]), (["IF 1 = 0 THEN", "PRINT 0", "ELSE"], ["END IF"]),
+         (["SELECT CASE 1", "CASE 1"], ["END SELECT"]), (["SELECT CASE 1", "CASE 2", "PRINT 0", "CASE ELSE"], ["END SELECT"]),
+         (["DO WHILE W8% = 0", "W8% = 1"], ["LOOP"]), (["IF 1 = 0 THEN", "PRINT 0", "ELSEIF 1 = 1 THEN"], ["END IF"])]
+
+
 def positions(e):
     """(position name, statement lines with {E} already substituted, spec statement)"""
     t = render.expr(e)
@@ -413,9 +419,15 @@ def run(tier, replay):
                 ps = rng.sample(ps, 5)
             elif e.get("k") == "bin" and id(e) not in full_ids:
                 ps = rng.sample(ps, 12)
-        for name, lines, stmt in ps:
+        for pi_, (name, lines, stmt) in enumerate(ps):
             text = "\r\n".join(PRE + lines + ["PRINT \"end\""] + POST) + "\r\n"
             cases.append((name, text, stmt, len(PRE) + 1, len(PRE) + len(lines)))
+            # the same statement inside a block of each kind (the checker's passes walk into every kind of block): for the
+            # plain leaves every position gets one of the seven wrappers, in rotation
+            if e.get("k") in ("var", "lit", "idx") or tier == "thorough":
+                head, foot = WRAPS[(pi_ + len(cases)) % len(WRAPS)]
+                text = "\r\n".join(PRE + head + lines + foot + ["PRINT \"end\""] + POST) + "\r\n"
+                cases.append((name + "@" + head[0].split()[0].lower(), text, stmt, len(PRE) + len(head) + 1, len(PRE) + len(head) + len(lines)))
     resps = pool.map([{"op": "run", "text": c[1], "budget": 50000} for c in cases], timeout=60)
     rid = 0
     for (name, text, stmt, lo, hi), resp in zip(cases, resps):
